@@ -44,12 +44,12 @@ func init() {
 		"Decides: the reachable explicit panics are the three tabled, unreachable ones (with exhaustive switch companions); no possibly-nil pointer reaches a dereferencing parameter; every big-integer divisor is a power of ten, a non-zero constant or behind the operand's IsZero test, and table indices are guarded; every API-reachable loop is counted, error-checked on each cycle, or tabled with its variant; the parser rejects signs inside the digit string, keeps a NaN form on error and range-checks finite results.",
 		[]string{"implicit run-time panics that depend on values beyond the listed index/divisor/nil obligations (inside math/big), memory exhaustion, slow-but-finite operations at the ±100000 limits"})
 	prop("C05", "Any argument may alias the destination or another argument",
-		[]string{"C05.R1", "C05.R2", "C05.R3", "C05.R4", "C06.R8", "C06.R10"},
+		[]string{"C05.R1", "C05.R2", "C05.R3", "C05.R4", "C06.R8", "C06.R10", "C06.R11", "C16.R7"},
 		"Decides the structural cause of alias-safety for every function with a destination role and a same-typed operand role: assuming they are the same object, no path reads an operand field after a non-copy write of that field through the destination (flow- and field-sensitive over SSA, bottom-up callee summaries, the repo's p==q / p!=nil guards prune paths); BigInt wrappers use distinct inner temporaries and the innerOrAlias helpers exactly where math/big compares pointers.",
 		[]string{"alias behaviour inside math/big (trusted)"},
 		"math/big methods are alias-safe when they can see the aliasing (same *big.Int or same backing array)", "hand summaries of (*BigInt).inner* / noescape; updateInner(src) copies src")
 	prop("C06", "Results depend only on operands and context; inputs are never modified",
-		[]string{"C06.R1", "C06.R2", "C06.R3", "C06.R4", "C06.R5", "C06.R6", "C06.R7", "C06.R8", "C06.R9", "C06.R10"},
+		[]string{"C06.R1", "C06.R2", "C06.R3", "C06.R4", "C06.R5", "C06.R6", "C06.R7", "C06.R8", "C06.R9", "C06.R10", "C06.R11"},
 		"Decides for all inputs and histories: destinations of exported operations are write-only until assigned and completely assigned (Form, Negative, Exponent, Coeff) on every result-delivering return; the mod-set through every operand-role parameter and through the Context is empty; pointers into package-level tables and constants never reach a written position outside initialisation; every package-level variable is init-only; a failed exponent check (setExponent returning a System* flag without storing) never leaves a new coefficient with the destination's previous exponent.",
 		[]string{"nothing numeric is needed for this property"},
 		"a Condition carrying a System* flag always becomes an error (C03.R1/R3), so such returns need not deliver a complete value", "math/big mod/ref table", "hand summaries of the unsafe helpers")
@@ -90,7 +90,7 @@ func init() {
 		"Decides: the Form constants have the order CmpTotal relies on and cmpOrder is ±(Form+1); on every path of Decimal.Cmp that returns a coefficient comparison the result is negated exactly for negative operands and the larger-exponent side is the rescaled one; CmpTotal's exponent tie-break flips for negatives (path enumeration); comparisons write nothing; Context.Cmp has the NaN prologue.",
 		[]string{"order axioms over triples; correctness of the digit-count shortcut (numeric)"})
 	prop("C16", "BigInt behaves exactly like math/big.Int",
-		[]string{"C16.R1", "C16.R2", "C16.R3", "C16.R4", "C16.R5", "C16.R6", "C18.R5", "C05.R1", "C05.R2", "C06.R3"},
+		[]string{"C16.R1", "C16.R2", "C16.R3", "C16.R4", "C16.R5", "C16.R6", "C16.R7", "C18.R5", "C05.R1", "C05.R2", "C06.R3"},
 		"Decides wrapper discipline for all 60+ methods: same-named math/big call on the receiver's view with parameters' views in order; every written view is written back with updateInner on every successful path and operands never are; zero is never negative on any fast path; fast paths read operands before writing (RAW) and never write them; the views written by the math/big routines that can leave a sign on a zero magnitude are normalised before the write-back.",
 		[]string{"value equality of the uint64 fast-path arithmetic with math/big; text and bit-length results"})
 	prop("C17", "Integer and float conversions and Modf are exact",
